@@ -228,12 +228,136 @@ def big_cases(rng, tier):
 # -- several constructions in one process ---------------------------------------------------------------
 
 
-def sq_step(t, custom=None, close=False):
-    return {"op": "sqlite", "testing": t, "custom": custom, "close": close}
+def sq_step(t, custom=None, close=False, name=None, via=None):
+    d = {"op": "sqlite", "testing": t, "custom": custom, "close": close}
+    if name:
+        d["name"] = name
+    if via:
+        d["via"] = via
+    return d
 
 
 def pw_step(t=None, file=None, touch=True, close=False):
     return {"op": "peewee", "testing": t, "file": file, "touch": touch, "close": close}
+
+
+def use_step(kind="sqlite", testing=True, file=None, calls=(), close=False, via=None, name=None, target=None):
+    """ordinary use of a store earlier in the process (harness/c14_child.py, step "use")"""
+    return {"op": "use", "kind": kind, "testing": testing, "file": file, "calls": list(calls), "close": close,
+            "via": via, "name": name, "target": target}
+
+
+def legacy_ids(stores, t):
+    out = []
+    for s in stores:
+        if s["testing"] == t:
+            for o in s["ops"]:
+                if o[0] == "create" and o[1] not in out:
+                    out.append(o[1])
+    return out
+
+
+def use_calls(rng, ids, bulk=True, single=True, reads=True, edits=False, drop=None, shift=None, n=None):
+    """Calls of an ordinary program on a store that holds buckets of the SAME ids as the legacy store, created in
+    another order (and, with `shift`, behind a bucket of its own), so that every id has another row number
+    there than it will get in the migrated store; other metadata, other events."""
+    ids = list(ids) or ["b"]
+    order = list(reversed(ids))
+    if len(order) > 2 and rng.random() < 0.5:
+        rng.shuffle(order)
+    if shift is None:
+        shift = len(ids) == 1 or order == ids or rng.random() < 0.4
+    if shift:
+        order = ["used-only"] + order
+    calls = [create(b, "used-ty", "used-cl", "used-ho", CREATED[3], "used", {"used": True}) for b in order]
+    for b in order:
+        k = n if n is not None else rng.choice([1, 2, 5])
+        if bulk:
+            calls.append(["insert_many", b, events(rng, k)])
+        if single:
+            calls.append(["insert", b, ev(rng, [0, 1000, 7000])])
+        if reads:
+            calls.append(rng.choice([["get_events", b, -1], ["get_events", b, 1], ["get_eventcount", b], ["get_metadata", b],
+                                     ["get_event", b, 0], ["buckets"]]))
+        if edits:
+            calls.append(["replace", b, rng.randrange(0, 9), ev(rng, [0, 1000])])
+            calls.append(["delete", b, rng.randrange(0, 9)])
+    if drop is not None:
+        b = order[drop % len(order)]
+        calls.append(["delete_bucket", b])
+        if rng.random() < 0.5:
+            calls.append(create(b, "used-again"))
+            calls.append(["insert_many", b, events(rng, 2)])
+    return calls
+
+
+def named_store(rng, t, n=5):
+    """a legacy store whose bucket ids are those a real installation has, three buckets, a handful of events each"""
+    ids = ["aw-watcher-window_host", "aw-watcher-afk_host", "b"]
+    ops = [create(ids[0], "currentwindow", "aw-watcher-window", "host", CREATED[0], "window", {"k": [1, 2]}),
+           create(ids[1], "afkstatus", "aw-watcher-afk", "host", CREATED[2]), create(ids[2], da={"k": "v"})]
+    for j, b in enumerate(ids):
+        ops.append(["insert_many", b, [[BASE + (i * (j + 1)) * SEC, (j + 1) * SEC, {"bucket": j, "i": i}, 0] for i in range(n + j)]])
+    return {"testing": t, "ops": ops}
+
+
+def use_corpus(rng):
+    """sessions in which the process has USED a store before the migrating construction"""
+    out = []
+    for t in (True, False):
+        mine = [named_store(rng, t)]
+        ids = legacy_ids(mine, t)
+        other = [{"testing": not t, "ops": [create("b", "other-ty"), create("aw-watcher-afk_host", "other-afk"),
+                                            ["insert_many", "b", events(rng, 3)],
+                                            ["insert_many", "aw-watcher-afk_host", events(rng, 2)]]}]
+        add = lambda kind, stores, session: out.append(mk_case(kind, t, stores, session=session))  # noqa: E731
+        for close in (False, True):
+            add("session-used-custom-sqlite", mine, [use_step("sqlite", t, "export.db", use_calls(rng, ids, shift=False), close=close), sq_step(t)])
+        add("session-used-custom-sqlite-via-datastore", mine,
+            [use_step("sqlite", not t, "export.db", use_calls(rng, ids), via="datastore"), sq_step(t, via="datastore")])
+        add("session-used-custom-sqlite-bulk-only", mine, [use_step("sqlite", t, "export.db", use_calls(rng, ids, single=False, reads=False)), sq_step(t)])
+        add("session-used-custom-sqlite-single-only", mine, [use_step("sqlite", t, "export.db", use_calls(rng, ids, bulk=False, reads=False)), sq_step(t)])
+        add("session-used-custom-sqlite-reads-edits", mine, [use_step("sqlite", t, "export.db", use_calls(rng, ids, edits=True)), sq_step(t), sq_step(not t)])
+        for drop in (0, 1):
+            add("session-used-custom-sqlite-bucket-deleted", mine,
+                [use_step("sqlite", t, "export.db", use_calls(rng, ids, drop=drop, shift=bool(drop))), sq_step(t)])
+        add("session-used-two-files", mine + other,
+            [use_step("sqlite", t, "export.db", use_calls(rng, ids, shift=True), name="x"),
+             use_step("sqlite", t, "export2.db", use_calls(rng, ids, shift=False)), sq_step(not t),
+             use_step(target="x", calls=[["insert_many", b, events(rng, 2)] for b in ids]), sq_step(t)])
+        # the other profile's default store is opened (its own first creation: judged), used, then ours is created
+        add("session-used-other-default", mine + other,
+            [sq_step(not t, name="o"), use_step(target="o", calls=use_calls(rng, ids) + [["delete_bucket", "b"]]), sq_step(t)])
+        add("session-used-other-default-no-legacy", mine,
+            [sq_step(not t, name="o"), use_step(target="o", calls=use_calls(rng, ids), via="datastore"), sq_step(t)])
+        add("session-used-memory", mine, [use_step("memory", t, None, use_calls(rng, ids)), sq_step(t)])
+        add("session-used-memory-via-datastore", mine, [use_step("memory", t, None, use_calls(rng, ids), via="datastore"), sq_step(t)])
+        add("session-used-peewee-elsewhere", mine, [use_step("peewee", t, "elsewhere-peewee.db", use_calls(rng, ids)), sq_step(t)])
+        add("session-used-peewee-elsewhere-closed", mine + other,
+            [use_step("peewee", not t, "elsewhere-peewee.db", use_calls(rng, ids, edits=True), close=True), sq_step(t), sq_step(not t)])
+        add("session-used-after-custom-construction", mine,
+            [sq_step(t, custom="custom.db", name="c"), use_step(target="c", calls=use_calls(rng, ids)), sq_step(t)])
+    # a bulk insert larger than any plausible cache / chunk constant into the used store
+    t = rng.random() < 0.5
+    mine = [named_store(rng, t, 40)]
+    ids = legacy_ids(mine, t)
+    out.append(mk_case("session-used-custom-sqlite-large", t, mine,
+                       session=[use_step("sqlite", t, "export.db",
+                                         use_calls(rng, ids)[:4] + [gen_op(ids[0], 10_001, 7), gen_op(ids[1], 2_000, 8)]), sq_step(t)]))
+    return out
+
+
+def random_use(rng, stores, p, names):
+    """one use step in front of the construction of profile p in a random session"""
+    ids = legacy_ids(stores, p) or legacy_ids(stores, not p)
+    calls = use_calls(rng, ids, bulk=rng.random() < 0.85, single=rng.random() < 0.6, reads=rng.random() < 0.6,
+                      edits=rng.random() < 0.25, drop=rng.choice([None, None, None, 0, 1]))
+    via = rng.choice([None, None, "datastore"])
+    if names and rng.random() < 0.3:
+        return use_step(target=rng.choice(names), calls=calls, via=via)
+    kind = rng.choice(["sqlite", "sqlite", "sqlite", "memory", "peewee"])
+    return use_step(kind, rng.random() < 0.5, {"sqlite": f"used-{rng.randrange(2)}.db", "peewee": "elsewhere-peewee.db", "memory": None}[kind],
+                    calls, close=rng.random() < 0.3, via=via)
 
 
 def two_stores(rng, t, n=4):
@@ -268,7 +392,7 @@ def session_corpus(rng):
     return out
 
 
-def session_cases(rng, n):
+def session_cases(rng, n, use=False):
     out = []
     for _ in range(n):
         t = rng.random() < 0.5
@@ -280,6 +404,7 @@ def session_cases(rng, n):
         else:
             stores = [{"testing": not t, "ops": gen_store(rng)}]
         steps = []
+        names = []
         profiles = [t, not t] if rng.random() < 0.75 else [t]
         for p in profiles:
             k = rng.random()
@@ -287,8 +412,16 @@ def session_cases(rng, n):
                 steps.append(pw_step(rng.choice([p, not p]), file=rng.choice([None, None, "elsewhere-peewee.db"]),
                                      touch=rng.random() < 0.7, close=rng.random() < 0.3))
             if rng.random() < 0.2:
-                steps.append(sq_step(p, custom=f"custom-{len(steps)}.db", close=rng.random() < 0.5))
-            steps.append(sq_step(p, close=rng.random() < 0.4))
+                close = rng.random() < 0.5
+                steps.append(sq_step(p, custom=f"custom-{len(steps)}.db", close=close, name=None if close else f"s{len(steps)}"))
+                if not close:
+                    names.append(steps[-1]["name"])
+            if use and rng.random() < 0.7:
+                steps.append(random_use(rng, stores, p, names))
+            close = rng.random() < 0.4
+            steps.append(sq_step(p, close=close, name=None if close else f"s{len(steps)}", via=rng.choice([None, None, "datastore"])))
+            if not close:
+                names.append(steps[-1]["name"])
         out.append(mk_case("session-random", steps[-1]["testing"], stores, session=steps))
     return out
 
@@ -611,6 +744,7 @@ def expand(case, run):
               "listing_before": res["listing_before"], "listing_after": res["listing_after"]}
         if res.get("final") is not None and any(x["op"] == "sqlite" for x in case["session"][k + 1:]):
             sr["final"] = res["final"]
+            sr["expected_final"] = res.get("expected_final")
             sr["later"] = describe_steps({"session": case["session"][k + 1:]}, len(case["session"]), "(later in the same process) ")
         out.append((sc, sr))
     return out
@@ -626,7 +760,15 @@ def describe_steps(case, k, lead="(earlier in the same process) "):
     out = []
     for s in case["session"][:k]:
         if s["op"] == "sqlite":
-            out.append(f"SqliteStorage(testing={s['testing']}{', filepath=..' if s.get('custom') else ''})")
+            out.append(f"SqliteStorage(testing={s['testing']}{', filepath=..' if s.get('custom') else ''})"
+                       + (" through Datastore" if s.get("via") else ""))
+        elif s["op"] == "use":
+            kinds = sorted({c[0] for c in s["calls"]})
+            what = (f"the store opened as {s['target']}" if s.get("target") is not None else
+                    f"{ {'sqlite': 'SqliteStorage', 'memory': 'MemoryStorage', 'peewee': 'PeeweeStorage'}[s['kind']] }"
+                    f"({'' if s['kind'] == 'memory' else 'filepath=' + str(s.get('file'))})")
+            out.append(f"use of {what}{' through Datastore' if s.get('via') else ''}: {len(s['calls'])} calls ({', '.join(kinds)})"
+                       + (" then closed" if s.get("close") else ""))
         else:
             out.append(f"PeeweeStorage({'testing=' + str(s['testing']) if not s.get('file') else 'filepath=' + s['file']})"
                        + ("" if s.get("touch") else " unread") + (" closed" if s.get("close") else " left open"))
@@ -659,9 +801,10 @@ def oracle(case, run):
         return bad
     new_b = dict((k, v) for k, v in m["buckets"])
     new_e = dict((k, v) for k, v in m["events"])
-    if run.get("final") is not None and run["final"] != {"buckets": m["buckets"], "events": m["events"]}:
-        # nothing was written through this store object after its construction: what it holds must still be
-        # exactly what the constructor left (the later constructions belong to other files)
+    if run.get("final") is not None and run["final"] != (run.get("expected_final") or {"buckets": m["buckets"], "events": m["events"]}):
+        # nothing was written through this store object after its construction (or after the last use step that
+        # addressed it): what it holds must still be exactly what the constructor (that use) left -- the later
+        # constructions belong to other files
         fb = run["final"].get("buckets")
         if fb is None:
             bad.append(("C14:store-changed-later", f"the store could not be read again at the end of the process "
@@ -833,6 +976,19 @@ def evaluate(ck, top_cases, top_runs, have_driver, record=True):
         if record and c.get("session") is not None:
             ck.count("sessions (several constructions in one interpreter)")
             ck.count("session-steps", len(c["session"]))
+            uses = [(x, y) for x, y in zip(c["session"], r.get("steps") or []) if x["op"] == "use"]
+            if uses:
+                ck.count("sessions in which a store was used before a construction")
+            for x, y in uses:
+                ck.count("use-steps")
+                ck.count("use-steps:" + ("store left open by an earlier construction" if x.get("target") is not None else x["kind"])
+                         + (" via Datastore" if x.get("via") else ""))
+                ck.count("use-calls", len(x["calls"]))
+                if y.get("exc"):
+                    ck.count("use-steps that raised (context only)")
+                    ck.coverage.setdefault("use_step_exception_example", y["exc"])
+                if y.get("skipped"):
+                    ck.count("use-steps skipped (target not open)")
     labs = [CaseLabels() for _ in cases]
     wires, univs = [], []
     tied = []
@@ -974,6 +1130,13 @@ def shrink_case(case, tmp):
             c["session"] = steps
             return any(s["op"] == "sqlite" for s in steps) and fails(c)
         cur["session"] = common.shrink_list(cur["session"], still_steps, max_steps=10)
+        for k, st in enumerate(cur["session"]):          # the calls of a use step
+            if st["op"] == "use" and len(st.get("calls") or []) > 1:
+                def still_calls(calls, k=k):
+                    c = json.loads(json.dumps(cur))
+                    c["session"][k]["calls"] = calls
+                    return fails(c)
+                st["calls"] = common.shrink_list(st["calls"], still_calls, max_steps=10)
     for si in range(len(cur["stores"])):
         def still(ops, si=si):
             c = json.loads(json.dumps(cur))
@@ -1019,7 +1182,9 @@ def main(argv=None):
     # large buckets first (their interpreters run beside the many small cases), then the boundary corpus, the
     # sessions (several constructions in one interpreter) and the random stores
     cases = (big_cases(ck.rng, ck.tier) + corpus(ck.rng) + session_corpus(ck.rng)
-             + session_cases(ck.rng, 14 if ck.tier == "quick" else 600) + random_cases(ck.rng, n_random))
+             + session_cases(ck.rng, 14 if ck.tier == "quick" else 600)
+             + use_corpus(ck.rng) + session_cases(ck.rng, 16 if ck.tier == "quick" else 600, use=True)
+             + random_cases(ck.rng, n_random))
     work = tempfile.mkdtemp(prefix="c14-", dir=tmp)
     batch = 400
     # the implementation runs of the first batch (child interpreters only) go on while the proofs are checked
